@@ -349,17 +349,26 @@ def seeded_for(prop):
             continue
         if prop in meta.get("caught_by", {}):
             out.append((sid, os.path.join(SEEDED, sid, "patch.diff"), meta))
-    return out
+    if os.environ.get("SA_SELFTEST_FULL") == "1":
+        return out
+    # default: every kept change seeded *for this property*, and a fixed sample (every 12th, by id) of the changes seeded for other properties
+    # that this property's check also reports; the full set (several hundred for the properties that share many rules) with SA_SELFTEST_FULL=1
+    own = [x for x in out if x[0].startswith(prop + "-")]
+    other = [x for x in out if not x[0].startswith(prop + "-")]
+    return own + other[::12]
 
 
 TWINS = os.path.join(os.path.dirname(SEEDED), "twins")
 
 
-def twins():
-    """Stored behaviour-preserving refactorings (verified by tools/verify_twins.py: test suite at baseline): must stay silent."""
+def twins(prop=None):
+    """Stored behaviour-preserving refactorings (verified by tools/verify_twins.py: test suite at baseline, all 20 checks silent when stored):
+    must stay silent.  Default: the hand-made ones and those written for this property; all of them with SA_SELFTEST_FULL=1."""
     out = []
     if os.path.isdir(TWINS):
         for name in sorted(os.listdir(TWINS)):
+            if prop is not None and os.environ.get("SA_SELFTEST_FULL") != "1" and name[:2] in ("T7", "T8", "T9") and ("-" + prop) not in name:
+                continue
             pp = os.path.join(TWINS, name, "patch.diff")
             if os.path.exists(pp):
                 out.append((name, pp))
@@ -411,8 +420,8 @@ def run(prop, root, analyse):
     seeds = seeded_for(prop)
     meta_of = {sid: meta for sid, patch, meta in seeds}
     jobs = [("seeded", prop, root, sid, patch) for sid, patch, meta in seeds] + [("neutral", prop, root, label, i) for i, (label, tr) in enumerate(NEUTRAL)] \
-        + [("twin", prop, root, name, patch) for name, patch in twins()]
-    workers = max(1, min(int(os.environ.get("SA_JOBS", "0")) or (os.cpu_count() or 4), 16, len(jobs)))
+        + [("twin", prop, root, name, patch) for name, patch in twins(prop)]
+    workers = max(1, min(int(os.environ.get("SA_JOBS", "0")) or (os.cpu_count() or 4), 12, len(jobs)))
     try:
         ctxmp = multiprocessing.get_context("fork")
         with ProcessPoolExecutor(max_workers=workers, mp_context=ctxmp) as ex:
